@@ -4,13 +4,21 @@
 use crate::engine::Suite;
 
 pub mod c01;
+pub mod c02;
 pub mod c03;
+pub mod c04;
+pub mod c05;
 pub mod c06;
+pub mod c07;
 pub mod c08;
+pub mod c09;
 pub mod c10;
+pub mod c12;
 pub mod c15;
 pub mod c18;
+pub mod c20;
 pub mod guards;
+pub mod quotes;
 pub mod swapf;
 
 pub struct Property {
@@ -23,12 +31,19 @@ pub struct Property {
 pub fn all() -> Vec<Property> {
     vec![
         Property { id: "C01", rule: c01::RULE, assumptions: c01::ASSUMPTIONS, suites: c01::suites() },
+        Property { id: "C02", rule: c02::RULE, assumptions: c02::ASSUMPTIONS, suites: c02::suites() },
         Property { id: "C03", rule: c03::RULE, assumptions: c03::ASSUMPTIONS, suites: c03::suites() },
+        Property { id: "C04", rule: c04::RULE, assumptions: c04::ASSUMPTIONS, suites: c04::suites() },
+        Property { id: "C05", rule: c05::RULE, assumptions: c05::ASSUMPTIONS, suites: c05::suites() },
         Property { id: "C06", rule: c06::RULE, assumptions: c06::ASSUMPTIONS, suites: c06::suites() },
+        Property { id: "C07", rule: c07::RULE, assumptions: c07::ASSUMPTIONS, suites: c07::suites() },
         Property { id: "C08", rule: c08::RULE, assumptions: c08::ASSUMPTIONS, suites: c08::suites() },
+        Property { id: "C09", rule: c09::RULE, assumptions: c09::ASSUMPTIONS, suites: c09::suites() },
         Property { id: "C10", rule: c10::RULE, assumptions: c10::ASSUMPTIONS, suites: c10::suites() },
+        Property { id: "C12", rule: c12::RULE, assumptions: c12::ASSUMPTIONS, suites: c12::suites() },
         Property { id: "C15", rule: c15::RULE, assumptions: c15::ASSUMPTIONS, suites: c15::suites() },
         Property { id: "C18", rule: c18::RULE, assumptions: c18::ASSUMPTIONS, suites: c18::suites() },
+        Property { id: "C20", rule: c20::RULE, assumptions: c20::ASSUMPTIONS, suites: c20::suites() },
     ]
 }
 
